@@ -6,12 +6,14 @@ def run(ctx: common.Ctx):
     tree_check.setup(ctx, 'C05')
     doc_checks.run_c05(ctx)
     doc_checks.run_c05_costs(ctx)
+    doc_checks.run_c05_comment_handover(ctx)
     tree_check.correspondence(ctx, 'C05')
 
 
 def search(ctx: common.Ctx):
     doc_checks.run_c05(ctx)
     doc_checks.run_c05_costs(ctx)
+    doc_checks.run_c05_comment_handover(ctx)
 
 
 def replay(ctx, path):
